@@ -540,3 +540,77 @@ def r8(cx):
         elif len(locs) > ok[0]:
             cx.violation(fn, 'panic-site-count:%s' % kind, '%d sites of %s, %d reviewed (%s)' % (len(locs), kind, ok[0], ok[1]), loc=locs[-1])
     cx.floor(len(sites), 5, 'panic-capable constructs')
+
+
+MULTI_STRIP = re.compile(r'^core::str::<impl str>::(trim|trim_start|trim_end|trim_matches|trim_start_matches|trim_end_matches|'
+                         r'trim_left|trim_right|trim_left_matches|trim_right_matches|replace|replacen|split_whitespace|'
+                         r'trim_ascii|trim_ascii_start|trim_ascii_end)$')
+VALUE_PATH = ['yash_arith::eval::expand_variable', 'yash_arith::eval::parse_variable_value', THE_PARSER]
+
+
+@RS.rule('C03.R7b', 'K-CALLERS', 'a variable value is read as ONE optionally signed constant: nothing is trimmed or stripped repeatedly')
+def r7b(cx):
+    F = cx.F
+    for root in VALUE_PATH:
+        if root not in F.bodies:
+            continue
+        for body in F.logical(root):
+            cx.fn(body.fn)
+            n = 0
+            for b, t in body.calls():
+                names = Q.callee_names(t)
+                if any(x.startswith('core::str::<impl str>::') for x in names):
+                    n += 1
+                    cx.site('%s: %s at %s' % (body.fn, pp.callee(t), body.loc(t)))
+                if any(MULTI_STRIP.search(x) for x in names):
+                    cx.violation(body.root, 'multi-strip:%s' % pp.callee(t).split('::')[-1],
+                                 '%s removes an unbounded run of characters while converting a variable value: strings that are '
+                                 'not integer constants (stacked signs such as --5, surrounding blanks) are then accepted and '
+                                 '$((x)) no longer agrees with $(($x))' % pp.callee(t), loc=body.loc(t))
+    cx.require(cx.sites, 'no string operation found on the variable-value path')
+
+
+CHAR_ITER = re.compile(r'core::str::iter::(Chars|CharIndices)')
+BYTE_SINKS = [re.compile(r'^core::str::traits::<impl core::ops::index::Index<I> for str>::index$'),
+              re.compile(r'^core::str::<impl str>::(split_at|split_at_checked|get|get_unchecked|is_char_boundary|split_at_mut)$'),
+              re.compile(r'^core::str::traits::<impl core::slice::index::SliceIndex<str> for .*>::(index|get)$')]
+
+
+@RS.rule('C03.R9', 'K-TAINT', 'no character count is used as a byte offset into the expression text')
+def r9(cx):
+    F = cx.F
+    n_counts = 0
+    for body in F.bodies_in(['yash_arith::']):
+        seeds = set()
+        for b, t in body.calls():
+            if Q.callee_is(t, ['core::iter::traits::iterator::Iterator::count', re.compile(r'Iterator>::count$')]) or \
+                    Q.callee_is(t, ['core::str::iter::Chars::<\'a>::count', re.compile(r'::count$')]):
+                selfty = (t['f'].get('self') or '') + ' ' + ' '.join(t.get('at', []))
+                if CHAR_ITER.search(selfty):
+                    seeds.add(t['dest']['l'])
+                    n_counts += 1
+                    cx.site('%s: character count at %s' % (body.fn, body.loc(t)))
+        # byte-offset sinks are inspected in every body (also when there is no seed) so that the rule is not vacuous
+        sinks = [(b, t) for b, t in body.calls() if any(p.search(n) for n in Q.callee_names(t) for p in BYTE_SINKS)]
+        for b, t in sinks:
+            cx.site('%s: byte-offset use %s at %s' % (body.fn, pp.callee(t), body.loc(t)))
+        if not seeds:
+            continue
+        cx.fn(body.fn)
+        tainted = Q.forward_taint(body, seeds, through_calls=[re.compile(r'core::ops::arith::(Add|Sub)'), re.compile(r'::min$|::max$')])
+        for b, t in sinks:
+            for a in t['a']:
+                l = Q.operand_local(a)
+                if l is not None and l in tainted:
+                    cx.violation(body.fn, 'char-count-as-byte-offset:%s' % pp.callee(t).split('::')[-1],
+                                 'a count of characters reaches a byte offset of the source text: any multi-byte character '
+                                 '(é, ß, 日 - all accepted in identifiers) makes the slice land inside a UTF-8 sequence and panic, '
+                                 'or splits a name in two', loc=body.loc(t))
+        # ranges used as token locations
+        for b, j, s in body.stmts():
+            if s['k'] == 'assign' and s['rv']['k'] == 'agg' and 'Range' in (s['rv'].get('adt') or ''):
+                for o in s['rv']['ops']:
+                    l = Q.operand_local(o)
+                    if l is not None and l in tainted:
+                        cx.violation(body.fn, 'char-count-in-location', 'a count of characters is used in a byte range of the source text',
+                                     loc=body.loc(s))
